@@ -19,6 +19,17 @@ the geometry definition, never calling ORANGE) and by tolerant numeric compariso
   cmp, d_is      (FindMax right after Find in the same state) sign(d_unlimited - m) and whether
                  the reported distance equals d_unlimited / m (relative tolerance 1e-9)
   x_ok           MoveI precondition 0 < x <= cached distance (and < if a boundary is cached)
+  f_dec   T/F/U  (SetDir on a boundary) the exiting / re-entrant decision the navigator took (its
+                 boundary flag after the call) == the decision implied by the TRUE surface normal:
+                 the independent oracle finds the surface the point lies on (smallest |f|/|grad f|
+                 over the surfaces of every level of the arrival-side chain, each evaluated at the
+                 position LOCAL to that level), takes the gradient of its quadric there and rotates
+                 it to the global frame; before crossing the track exits iff sign(dir.n) ==
+                 sign(arrival.n); after crossing it has turned back iff sign(dir.n) != sign(dir at
+                 crossing . n).  U when |dir.n| < 1e-6 (tangent) or the point is on an edge.
+                 dx/dr/dt count the judged exiting / re-entrant / nearly tangent (|dir.n| < 0.05) turns.
+                 With a valid normal the LOGICAL point is displaced along +-n instead of along the
+                 direction, so that nearly tangent turns remain judgeable.
   f_pos   T/F    reported position == position implied by the operations (1e-9 relative)
   rays_ok/nrays, sphere_ok  (Safety) every ray later shot from the same point travels at
                  least the safety; no valid point of the sphere of radius s(1-1e-6) in 26+ directions
@@ -52,6 +63,7 @@ class Annotator:
         self.geo = oracle_geo.OracleGeo(geofile)
         self.queries = []      # points
         self.discarded = {}
+        self.normals = {}      # outcome of the oracle's normal computation per boundary reached
 
     # pass 1 collects query points; pass 2 uses the located results
     def q(self, p):
@@ -97,6 +109,13 @@ def run(geofile, raw, outpath):
     du = None
     probes = []   # (record index of Safety, s, pos, [(dir, d)...])
     cur_probe = None
+    nrm = None    # true unit normal (global) of the surface the track sits on, from the oracle
+    s_arr = 0.0   # arrival direction . normal
+    s_ref = 0.0   # (direction at crossing) . normal
+    TAN = 1e-6
+
+    def sgn(x):
+        return 1.0 if x > 0 else -1.0
     for idx, r in enumerate(recs):
         e = r["e"]
         P = {}
@@ -107,6 +126,7 @@ def run(geofile, raw, outpath):
             pos = np.array(r["pos"], dtype=float)
             dirv = np.array(r["dir"], dtype=float)
             ref = None
+            nrm = None
             ph = "I"
             has = nb = False
             nd = 0.0
@@ -118,8 +138,11 @@ def run(geofile, raw, outpath):
             P["pre_ph"] = ph
             if ph == "Bp":
                 ep = eps_at(pos)
-                P["rev_a"] = an.q(pos + ep * dirv)
-                P["rev_b"] = an.q(pos + ep * ref)
+                if nrm is not None and abs(s_ref) >= TAN and abs(float(np.dot(dirv, nrm))) >= TAN:
+                    P["rev_n"] = bool(float(np.dot(dirv, nrm)) * s_ref < 0)
+                else:
+                    P["rev_a"] = an.q(pos + ep * dirv)
+                    P["rev_b"] = an.q(pos + ep * ref)
             if d is not None and d > 0:
                 ep = eps_at(pos)
                 ts = [f * d for f in (0.07, 0.21, 0.38, 0.5, 0.66, 0.83, 0.95)]
@@ -147,6 +170,7 @@ def run(geofile, raw, outpath):
             pos = pos + x * dirv
             ph = "I"
             ref = None
+            nrm = None
             nd = nd - x
             has = nd != 0
             nb = nb and has
@@ -161,15 +185,31 @@ def run(geofile, raw, outpath):
             nd = 0.0
             du = None
             cur_probe = None
+            na = an.geo.normal_at(pos, pos - eps_at(pos) * ref)
+            nrm = na["n"] if na["valid"] else None
+            an.normals[na["why"] or "ok"] = an.normals.get(na["why"] or "ok", 0) + 1
+            s_arr = float(np.dot(ref, nrm)) if nrm is not None else 0.0
+            if nrm is not None and abs(s_arr) < TAN:
+                nrm = None
         elif e == "Cross":
             ph = "Bp"
             ref = dirv.copy()
+            s_ref = float(np.dot(ref, nrm)) if nrm is not None else 0.0
             du = None
         elif e == "SetDir":
             dirv = np.array(r["dir"], dtype=float)
             has = nb = False
             nd = 0.0
             du = None
+            if ph in ("Bm", "Bp") and nrm is not None and "bres" in r:
+                s_new = float(np.dot(dirv, nrm))
+                base = s_arr if ph == "Bm" else s_ref
+                if abs(s_new) >= TAN and abs(base) >= TAN:
+                    # Bm: exits iff it keeps going the way it arrived; Bp: the flag is "exiting" iff
+                    # the direction still leads away from the surface on the side it crossed to
+                    want_exiting = (s_new * base > 0)
+                    P["dec"] = bool((r["bres"] == "exiting") == want_exiting)
+                    P["dkind"] = ("x" if want_exiting else "r", abs(s_new) < 0.05)
         elif e == "Safety":
             s = r["s"]
             P["s"] = s
@@ -193,9 +233,15 @@ def run(geofile, raw, outpath):
         if ph == "I":
             P["logical"] = an.q(pos)
         elif ph == "Bm":
-            P["logical"] = an.q(pos - eps_at(pos) * ref)
+            if nrm is not None:
+                P["logical"] = an.q(pos - eps_at(pos) * sgn(s_arr) * nrm)
+            else:
+                P["logical"] = an.q(pos - eps_at(pos) * ref)
         elif ph == "Bp":
-            P["logical"] = an.q(pos + eps_at(pos) * ref)
+            if nrm is not None and abs(s_ref) >= TAN:
+                P["logical"] = an.q(pos + eps_at(pos) * sgn(s_ref) * nrm)
+            else:
+                P["logical"] = an.q(pos + eps_at(pos) * ref)
         P["ph"] = ph
         P["pos"] = pos.copy()
         P["dir"] = dirv.copy()
@@ -240,7 +286,9 @@ def run(geofile, raw, outpath):
                     tiny = d is not None and 0 < d <= 1e-6 * max(1.0, float(np.max(np.abs(P["pos"]))))
                     o["dcls"] = "inf" if d is None else ("zero" if d == 0 else ("tiny" if tiny else ("pos" if d > 0 else "neg")))
                     o["pre_ph"] = P["pre_ph"]
-                    if "rev_a" in P:
+                    if "rev_n" in P:
+                        o["f_rev"] = tfu(P["rev_n"])
+                    elif "rev_a" in P:
                         ka, kb = an.key(P["rev_a"]), an.key(P["rev_b"])
                         o["f_rev"] = "U" if ka is None or kb is None else tfu(ka != kb)
                     else:
@@ -263,6 +311,12 @@ def run(geofile, raw, outpath):
                     if e == "FindMax":
                         o["cmp"] = P.get("cmp", 9)
                         o["d_is"] = P.get("d_is", "unknown")
+                if e == "SetDir":
+                    o["f_dec"] = tfu(P.get("dec"))
+                    k = P.get("dkind")
+                    o["dx"] = 1 if k and k[0] == "x" else 0
+                    o["dr"] = 1 if k and k[0] == "r" else 0
+                    o["dt"] = 1 if k and k[1] else 0
                 if e == "MoveI":
                     o["x_ok"] = P["x_ok"]
                     o["rem"] = P["rem"]
@@ -285,11 +339,12 @@ def run(geofile, raw, outpath):
                         o["sphere_ok"] = "U"
                         o["nsphere"] = 0
                     o["spos"] = bool(s is not None and s > 0)
-                for k in ("f_vol", "f_out", "f_same", "f_change", "f_rev", "sphere_ok"):
+                for k in ("f_vol", "f_out", "f_same", "f_change", "f_rev", "sphere_ok", "f_dec"):
                     if k in o:
                         nfacts[o[k]] = nfacts.get(o[k], 0) + 1
             fh.write(json.dumps(o, separators=(",", ":")) + "\n")
     return {"records": len(recs), "queries": len(an.queries), "discarded": an.discarded, "facts": nfacts,
+            "normals": an.normals,
             "union_boundary": bool(an.geo.has_union_boundary_daughter)}
 
 
